@@ -16,7 +16,7 @@ pub fn meta() -> Meta {
     Meta {
         id: "C08",
         level: "model_checking",
-        rule: "explicit-state BFS over the subset lattice: state = .skf content (hidden fields included) of the remaining samples, actions = the real generic_modes::delete of every non-empty proper subset of the current names, the names given in every order (up to three names; file order, reversed and rotated above) (quick: n<=5 and n=7 with single deletions; thorough: n<=6 and the full lattice for n=8), so every subset is reached along every chain; the lattice is explored from the freshly built file and again from the same file after `weed --filter-ambig-as-missing` (stored counts that exclude ambiguous bases); invariant in every state of the fresh lattice: the file equals the model table and the real fresh build of the remaining samples (order kept, rows of deleted-only k-mers gone, stored counts = fresh counts). CLI family: names on the command line vs one-per-line names file (with/without trailing newline, blank line, CRLF line ends, trailing blanks; sample names that contain a space), in place and with -o; refusals (unknown name, all samples) must exit non-zero and leave the file byte-identical. Search paths are re-executed through `ska delete`. The lattice is also explored from a file in which one sample has no k-mer left (the start file weeded with that sample's own sequences): deleting it alone or together with others must leave no row without a base.".into(),
+        rule: "explicit-state BFS over the subset lattice: state = .skf content (hidden fields included) of the remaining samples, actions = the real generic_modes::delete of every non-empty proper subset of the current names, the names given in every order (up to three names; file order, reversed and rotated above) (quick: n<=5 and n=7 with single deletions; thorough: n<=6 and the full lattice for n=8), so every subset is reached along every chain; the lattice is explored from the freshly built file and again from the same file after `weed --filter-ambig-as-missing` (stored counts that exclude ambiguous bases); invariant in every state of the fresh lattice: the file equals the model table and the real fresh build of the remaining samples (order kept, rows of deleted-only k-mers gone, stored counts = fresh counts). CLI family: names on the command line vs one-per-line names file (with/without trailing newline, blank line, CRLF line ends, trailing blanks; sample names that contain a space), in place and with -o; refusals (unknown name, all samples) must exit non-zero and leave the file byte-identical. Search paths are re-executed through `ska delete`. The lattice is also explored from a file in which one sample has no k-mer left (the start file weeded with that sample's own sequences): deleting it alone or together with others must leave no row without a base. A names file containing a line that is not valid UTF-8 is refused as a whole.".into(),
         assumptions: vec!["sorted-row canonical form: delete treats rows independently".into()],
         exhaustive_when_uncapped: true, // the declared bounded space (all selections / the whole lattice / all histories up to the depth bound / all interleavings and configurations) is enumerated completely unless capped
     }
@@ -218,6 +218,30 @@ fn cli_family(ctx: &Ctx, rep: &mut Report, idx: &mut u64) {
                 let av: Vec<&str> = args.iter().map(|s| s.as_str()).collect();
                 let o = cli::run(&av, &dir, None);
                 let same = std::fs::read(&work).ok() == std::fs::read(&orig).ok();
+                if via_file && what == "known+unknown" {
+                    // a names file whose second line is not valid UTF-8 (a Latin-1 name): it names no sample of the
+                    // file, so the request is refused as a whole — a valid first line must not be acted upon
+                    let mut bytes = format!("{}\n", names[0]).into_bytes();
+                    bytes.extend_from_slice(b"S\xe9rie2\n");
+                    bytes.extend_from_slice(format!("{}\n", names[names.len() - 1]).as_bytes());
+                    std::fs::write(format!("{dir}/latin1.txt"), &bytes).unwrap();
+                    for with_o in [false, true] {
+                        std::fs::copy(&orig, &work).unwrap();
+                        let _ = std::fs::remove_file(format!("{dir}/lo.skf"));
+                        let mut a2 = vec!["delete", "-s", "w.skf", "-f", "latin1.txt"];
+                        if with_o {
+                            a2.extend(["-o", "lo"]);
+                        }
+                        let o2 = cli::run(&a2, &dir, None);
+                        rep.evaluations += 1;
+                        rep.corner("cli_refusal_names_file_not_utf8");
+                        let same2 = std::fs::read(&work).ok() == std::fs::read(&orig).ok();
+                        let wrote = std::path::Path::new(&format!("{dir}/lo.skf")).exists();
+                        if o2.code == 0 || !same2 || wrote {
+                            rep.violate(format!("cli delete names file not UTF-8 k={k} -o={with_o}"), format!("ska delete -f with a line that is not valid UTF-8: exit {}, input {}, output file {}", o2.code, if same2 { "unchanged" } else { "CHANGED" }, if wrote { "written" } else { "absent" }), json!({"cli": true, "refusal": "names file not UTF-8", "k": k}));
+                        }
+                    }
+                }
                 if o.code == 0 || !same {
                     rep.violate(format!("cli delete refusal {what} via_file={via_file} k={k}"), format!("ska delete with {what}: exit {} and file {}", o.code, if same { "unchanged" } else { "CHANGED" }), json!({"cli": true, "refusal": what, "k": k, "via_file": via_file}));
                 }
